@@ -1196,6 +1196,21 @@ func (e *Env) specCall(sd *SpecDecl, n *ast.CallExpr) (Val, types.Type, error) {
 		if i >= len(n.Args) {
 			return Val{}, nil, errf("spec %s: missing argument", sd.Name)
 		}
+		if bc, ok := n.Args[i].(*ast.CallExpr); ok && len(bc.Args) == 1 {
+			if id, ok := bc.Fun.(*ast.Ident); ok && id.Name == "bytesof" {
+				// bytesof(s): the bytes of string s as a by-content sequence argument (what []byte(s) holds)
+				sv, _, err := e.expr(bc.Args[0])
+				if err != nil {
+					return Val{}, nil, err
+				}
+				if sv.K != KStr {
+					return Val{}, nil, errf("bytesof: string expected")
+				}
+				args = append(args, "(str2arr "+sv.T+")", "0", "(slen "+sv.T+")")
+				sorts = append(sorts, "(Array Int (_ BitVec 8))", "Int", "Int")
+				continue
+			}
+		}
 		v, _, err := e.expr(n.Args[i])
 		if err != nil {
 			return Val{}, nil, err
